@@ -50,7 +50,8 @@ def parseCtlOp (ws : List String) : Option CtlOp :=
   | ["verify", a, "|", rwc, woc, ck, rev, srw, srev, ch, sf] =>
     some (.verify a (parseOptChain rwc) (parseOptChain woc) (if ck = "!" then none else if ck = "-" then some "" else some ck)
       (if rev = "-" then none else rev.toNat?) (b01 srw) (b01 srev) (parseCk ch sf))
-  | ["w", off, len, "|", f] => do some (.write (← off.toNat?) (← len.toNat?) (splitList f))
+  | ["w", off, len, "|", f] => do some (.write (← off.toNat?) (← len.toNat?) (splitList f) [])
+  | ["w", off, len, "|", f, "|", t] => do some (.write (← off.toNat?) (← len.toNat?) (splitList f) (parseTried t))
   | ["sync", "|", f] => some (.sync (splitList f))
   | ["unmap", "|", f] => some (.unmap (splitList f))
   | ["r", off, len, "|", t] => do some (.read (← off.toNat?) (← len.toNat?) (parseTried t))
